@@ -70,6 +70,36 @@ def _build2():
     out = subprocess.run(["goto-instrument", "--show-goto-functions", lib],
                          stdout=subprocess.PIPE, stderr=subprocess.DEVNULL).stdout.decode()
     _cache["addr_taken"] = set(re.findall(r"address_of\((\w+)\)", out))
+    # who reads / writes each whitelisted process-wide object: function -> {"r": set, "w": set}
+    acc = {}
+    cur = None
+    for l in out.splitlines():
+        m = re.match(r"^(\S+) /\* (\S+) \*/$", l)
+        if m:
+            cur = m.group(1)
+            continue
+        t = l.strip()
+        if cur is None or not t or t.startswith("//"):
+            continue
+        for g in GLOBALS:
+            # the symbol itself, not a struct member (.x / ->x), a parameter or local (f::x)
+            pat = r"(?<![\w.>:$])" + re.escape(g) + r"(?![\w$])"
+            if not re.search(pat, t):
+                continue
+            a = acc.setdefault(g, {}).setdefault(cur, {"r": False, "w": False})
+            rest = t
+            mw = re.match(r"^(?:ASSIGN|CALL)\s+" + re.escape(g) + r"(?:\[[^=]*\])?\s*:=", t)
+            if mw:
+                a["w"] = True
+                rest = t[mw.end():]
+            if re.search(r"(?:strdup|strlen|strcmp)\(address_of\(" + re.escape(g) + r"(?![\w$])", rest):
+                a["r"] = True            # source operand of a read-only libc function
+            elif re.search(r"address_of\(" + re.escape(g) + r"(?![\w$])", rest):
+                a["w"] = True            # handed to a callee that may write it (snprintf target)
+                a["r"] = True
+            elif re.search(pat, rest):
+                a["r"] = True
+    _cache["access"] = acc
     shutil.rmtree(work, ignore_errors=True)
     return _cache
 
@@ -102,6 +132,10 @@ def choke_point(tier):
     return out
 
 
+GLOBALS = ["last_scanned_line_nr", "last_scanned_filename", "conf_dirs", "conf_count",
+           "file_owner_set", "file_owner", "file_group_set", "file_group", "file_permissions_set",
+           "file_perms_file", "file_perms_dir", "allow_follow_symlinks"]
+
 WHITELIST = {
     # documented process-wide state (property C18 exempts exactly these)
     "last_scanned_line_nr", "last_scanned_filename",
@@ -124,7 +158,40 @@ def statics(tier):
                  not extra, "unexpected: %s; found: %s" % (extra, sorted(c["statics"])))]
 
 
-CHECKS = {"C06": [choke_point], "C16": [choke_point], "C18": [statics]}
+# documented process-wide objects: who may write and who may read them (property C18: "every
+# thread obtains exactly the results of running its calls alone" - a per-object operation must not
+# DEPEND on the error-location record, and must not WRITE the documented global settings)
+_SETTERS = {"econf_requireOwner", "econf_requireGroup", "econf_requirePermissions", "econf_followSymlinks",
+            "econf_reset_security_settings"}
+ACCESS_RULES = {
+    "last_scanned_line_nr": ({"read_file"}, {"last_scanned_file"}),
+    "last_scanned_filename": ({"read_file"}, {"last_scanned_file", "read_file"}),   # snprintf target: counted as read too
+    "conf_dirs": ({"econf_set_conf_dirs"}, None),
+    "conf_count": ({"econf_set_conf_dirs"}, None),
+}
+for _g in ("file_owner_set", "file_owner", "file_group_set", "file_group", "file_permissions_set",
+           "file_perms_file", "file_perms_dir", "allow_follow_symlinks"):
+    ACCESS_RULES[_g] = (_SETTERS, {"read_file_with_callback"})
+
+
+def access(tier):
+    c = _build()
+    if "error" in c:
+        return [dict(name="static.build", description=c["error"], status="UNDECIDED", reason=c["error"])]
+    out = []
+    for g, (writers, readers) in sorted(ACCESS_RULES.items()):
+        a = c["access"].get(g, {})
+        w = {f for f, x in a.items() if x["w"]}
+        r = {f for f, x in a.items() if x["r"]}
+        ok = w <= writers and (readers is None or r <= readers)
+        out.append(fact("static.access." + g,
+                        "process-wide object %s is written only by %s%s" % (
+                            g, sorted(writers), "" if readers is None else " and read only by %s" % sorted(readers)),
+                        ok, "writers: %s readers: %s" % (sorted(w), sorted(r))))
+    return out
+
+
+CHECKS = {"C06": [choke_point], "C16": [choke_point], "C18": [statics, access]}
 
 
 def run(pid, tier):
